@@ -42,6 +42,7 @@ def run(tier, seed, only=None):
     # read tracking of attributes used by the condition of the query that returned the object, over an inheritance hierarchy
     # (EntityMeta._set_rbits): the harness of C21 observes the same read set through a re-fetch
     specs.append(dict(module='checks.h_c21', fn='sub_query_read', cond_timeout=T, path_timeout=T / 2, setup='setup'))
+    specs.append(dict(module='checks.h_c21', fn='kw_query_read', cond_timeout=T, path_timeout=T / 2, setup='setup'))      # keyword filters are reads too
     if only: specs = [s for s in specs if only in s['fn']]
     rep.bounds = {
         'entity': 'one entity, integer key, 6 attributes: plain int, float, int optimistic=False, volatile int, nullable int, to-one reference',
